@@ -15,7 +15,8 @@ SUBS_Y = ["", ".MM", ".0M", ".MM.DD", ".MM.0D", ".0M.DD", ".0M.0D", ".JJJ", ".00
 COHERENT = [y + s for y in ("YYYY", "YY", "0Y") for s in SUBS_Y] + \
            [g + s for g in ("GGGG", "GG", "0G") for s in ("", ".VV", ".0V")]
 INCOHERENT = [y + s for y in ("YYYY", "YY", "0Y") for s in (".VV", ".0V")] + \
-             [g + s for g in ("GGGG", "GG", "0G") for s in (".WW", ".0W", ".UU", ".0U")]
+             [g + s for g in ("GGGG", "GG", "0G") for s in (".WW", ".0W", ".UU", ".0U")] + \
+             ["YYYY.0V.GGGG", "YY.VV.GG", "0Y.0V.0G", "GGGG.WW.YYYY", "GG.0U.YY"]     # the other kind of year does not mend the pairing
 FIRST = dt.date(2001, 1, 1)
 LAST = dt.date(2099, 12, 31)
 
